@@ -10,7 +10,12 @@ finite and its exact value is the integer k"; `Normal x` is the form of every
 number that reaches the model (odd mantissa that fits the precision).
 The Go standard library, NFC normalisation and grapheme segmentation are the
 parameter `L : Lib` / `nfc` / `clusters` of the theorems: every statement holds for
-ALL library behaviours.
+ALL library behaviours (two theorems assume a named law about a library answer —
+`IdxOK` for regexp's index lists, the field-count promise of encoding/csv — and the
+harness probes those laws on the real library on every run).
+Sections: numbers · strings on clusters · library glue (incl. indent) · format (scanner =
+grammar, saturating numbers, argument bookkeeping, limits, dispatch, totality) · formatdate ·
+formatlist · jsonencode/jsondecode on top of C15 · regex · non-vacuity examples.
 -/
 import CtyModel.Lemmas.StdNumStr
 import CtyModel.Lemmas.StdNumMisc
@@ -22,6 +27,7 @@ import CtyModel.Lemmas.d14Date
 import CtyModel.Lemmas.d14Regex
 import CtyModel.Lemmas.d14Json
 import CtyModel.Lemmas.d14Glue
+import CtyModel.Lemmas.d14Dispatch
 import CtyModel.Props.C02
 namespace CtyModel
 namespace C14
@@ -379,8 +385,13 @@ theorem join_null_member (L : Lib) (sep : String) (xs ys : List String) :
   simp [joinImpl, joinCollect, hj, Value.whollyKnown, Payload.whollyKnown, hw, Value.isNull, Payload.isNull,
     Payload.unmark1]
 
-/-- `glue_total`: on known string arguments the cty layer of these functions adds no
-panic, whatever the libraries answer. -/
+/-- `glue_total`: on known, unmarked, non-null string arguments (what `Function.Call` hands to
+these `Impl`s: none of their parameters allows null, unknown or marked values) the cty layer of
+these functions adds no panic, whatever the libraries answer.  The functions that index or slice
+a library answer, or take other argument types, have their own totality theorems:
+`regex_never_panics` and `csvdecode_never_panics` (under a probed law about the library),
+`format_never_panics`, `formatlist_never_panics`, `indent_never_panics`, `substr_never_panics`.
+`regexall` and `join`/`split` on non-string lists are covered by correspondence only. -/
 theorem glue_total (L : Lib) (a b c : String) :
     (upperImpl L [sv a]).isPanic = false ∧ (lowerImpl L [sv a]).isPanic = false ∧
     (titleImpl L [sv a]).isPanic = false ∧ (trimSpaceImpl L [sv a]).isPanic = false ∧
@@ -679,6 +690,41 @@ theorem format_width_precision_limit (L : Lib) (args : List Value) (g : VerbSyn)
     · rw [(verb_fields g offset nextArg).2.2.2.1, hp]
       have := satNum_ge p hpd 1000001 hbig (by decide)
       simp only [Option.map_some, Option.getD_some, formatMaxWidthPrec]; omega
+
+/-- **Per-verb dispatch, numeric verbs**: what `format` asks Go's fmt. `%b %d %o %x %X` on a
+whole number: `fmt.Sprintf(<the verb without its [n]>, *big.Int)`; on a fraction: the "an integer
+is required" error. `%e %E %f %g %G`: `fmt.Sprintf(<the verb without its [n]>, *big.Float)`.
+(That fmt itself is right is outside any proof: it is the reference of the property.) -/
+theorem format_numeric_dispatch (L : Lib) (v : Verb) (args : List Value) (x : Num) (h0 : v.argNum ≠ 0)
+    (ha : args[v.argNum - 1]? = some (numVal x))
+    (hw : (v.hasWidth && decide (v.width > formatMaxWidthPrec)) = false)
+    (hp : (v.hasPrec && decide (v.prec > formatMaxWidthPrec)) = false) :
+    ((v.mode = 'b' ∨ v.mode = 'd' ∨ v.mode = 'o' ∨ v.mode = 'x' ∨ v.mode = 'X') →
+      (∀ i, (x.isInt || x.isZero) = true → x.truncInt = some i →
+        formatAppend L v args = .ok (L.fmtInt (String.ofList (stripIndex v.raw)) i)) ∧
+      ((x.isInt || x.isZero) = false → formatAppend L v args = .err "an integer is required")) ∧
+    ((v.mode = 'e' ∨ v.mode = 'E' ∨ v.mode = 'f' ∨ v.mode = 'g' ∨ v.mode = 'G') →
+      formatAppend L v args = .ok (L.fmtFloat (String.ofList (stripIndex v.raw)) x)) :=
+  ⟨fun hm => formatAppend_integer L v args x h0 ha hw hp hm, fun hm => formatAppend_float L v args x h0 ha hw hp hm⟩
+
+/-- … where "the verb without its `[n]`" is exact: `formatStripIndexSegment` of a scanned verb is
+the same sentence (`%`, flags, width, precision, letter) with the index segment removed, and
+the sentence itself when it has none. -/
+theorem format_strip_index_segment (g : VerbSyn) (hg : g.wf = true) (offset nextArg : Nat) :
+    stripIndex (g.verb offset nextArg).raw = g.head ++ [g.mode] :=
+  stripIndex_verb g hg offset nextArg
+
+/-- **Per-verb dispatch, string verbs**: `%s` cuts the string to the precision and pads it to the
+width, both counted in grapheme clusters; `%q` JSON-quotes the cut, re-normalised string and
+then pads. -/
+theorem format_string_dispatch (L : Lib) (v : Verb) (args : List Value) (s : String) (h0 : v.argNum ≠ 0)
+    (ha : args[v.argNum - 1]? = some (sv s))
+    (hw : (v.hasWidth && decide (v.width > formatMaxWidthPrec)) = false)
+    (hp : (v.hasPrec && decide (v.prec > formatMaxWidthPrec)) = false) :
+    (v.mode = 's' → formatAppend L v args = .ok (padWidth L.clusters v (precCut L.clusters v s))) ∧
+    (v.mode = 'q' → formatAppend L v args =
+      .ok (padWidth L.clusters v (L.jsonStr (L.nfc (precCut L.clusters v s))))) :=
+  formatAppend_string L v args s h0 ha hw hp
 
 /-- **Argument bookkeeping.** At `%` + a sentence of the grammar the verb is rendered at once;
 its error ends the call (so an error of an earlier verb wins over a syntax error further
@@ -1016,6 +1062,7 @@ example : decVal "18446744073709551617".toList = 18446744073709551617 := by deci
 example : satNum "18446744073709551617".toList = 9223372036854775807 := by decide
 example : satNum "9223372036854775800".toList = 9223372036854775807 ∧ satNum "9223372036854775799".toList = 9223372036854775799 := by decide
 example : (exHuge.verb 0 1).argNum = 9223372036854775807 := by decide
+example : stripIndex (exSyn.verb 7 1).raw = "%-5.2d".toList := by decide
 -- "%18446744073709551617d" (the width that wrapped to 1 before 84cbc5e) is refused when its argument exists
 def exLib : Lib :=
   { nfc := id, clusters := fun s => s.toList.map String.singleton, toUpper := id, toLower := id, title := id,
